@@ -412,9 +412,26 @@ def run_validated(chk, fx, prefix="C03"):
                 chk.violation(r, key, "%s validates its parameter `%s` in a throwing guard (line %d) and never uses it again: whatever it does, it does for another value than the one that was requested and checked" % (f["q"], p_, in_guard[0]["l"]), f["file"], in_guard[0]["l"])
 
 
+def run_lostupdate(chk, fx, prefix="C03"):
+    r = chk.rule(prefix + ".lostupdate", "copy - modify - install: a local object copied out of longer-lived state (a ScheduleState member, a Well's or Group's property object, a network, a config ...) and then modified (non-const member call, directly or through ->, or member assignment) is afterwards read by something - handed to update()/updateX()/emplace, moved, returned, compared; a copy that is modified and then dropped means the keyword or restart record it was built for is silently ignored", floor=150)
+    from verif import lostupdate
+    n_c = 0
+    for f in fx.fns:
+        if not f.get("body") or not f["file"].startswith(core.REPO + "/opm/"):
+            continue
+        rep, nc = lostupdate.analyse(f)
+        n_c += nc
+        if nc:
+            chk.instance(r, f["q"] + "@%d" % f["l"], sample=dict(function=f["q"], copies_of_state=nc, dropped=len(rep)))
+        for line, name, typ, init, wl in rep:
+            chk.violation(r, "%s:%s" % (f["q"], name), "%s: `%s` (%s, copied from `%s` at line %s) is modified at line%s %s and then never read again - not installed with update()/updateX(), not moved, not returned: the change is lost when the function returns" % (f["q"], name, typ, init, line, "s" if len(wl) > 1 else "", wl), f["file"], line)
+    chk.extra[prefix + "_state_copies_examined"] = n_c
+
+
 def run(chk):
     units = core.library_units()
     fx = chk.facts(units)
+    run_lostupdate(chk, fx, "C03")
     fh = chk.facts(["opm/input/eclipse/Schedule/Schedule.cpp"], files_re="^/repo/opm/input/eclipse/Schedule/", fn_re="^$")
     for q, r in fh.recs.items():
         fx.recs.setdefault(q, r)
